@@ -28,27 +28,31 @@ func Glob(pattern, input string, opts ...Option) bool {
 	}
 	i := 0
 	j := 0
-	asterisk := false
-	for i < len(pattern) {
-		if pattern[i] == '*' {
-			asterisk = true
+	// star is the index of the most recent '*' in pattern (-1 if none) and
+	// mark is the input position up to which that '*' currently extends.
+	star := -1
+	mark := 0
+	for j < len(input) {
+		switch {
+		case i < len(pattern) && pattern[i] == '*':
+			star = i
+			mark = j
 			i++
-		} else {
-			match := pattern[i] == input[j]
-			if !asterisk && !match {
-				return false
-			}
-			if match {
-				i++
-			}
-			if asterisk && match {
-				asterisk = false
-			}
+		case i < len(pattern) && pattern[i] == input[j]:
+			i++
 			j++
-		}
-		if j >= len(input) {
-			break
+		case star >= 0:
+			// let the last '*' swallow one more byte and retry
+			mark++
+			i = star + 1
+			j = mark
+		default:
+			return false
 		}
 	}
-	return i == len(pattern) && (asterisk || j == len(input))
+	// only trailing '*'s may remain
+	for i < len(pattern) && pattern[i] == '*' {
+		i++
+	}
+	return i == len(pattern)
 }
